@@ -19,9 +19,28 @@ for c in man["checks"]:
     if not os.path.exists(f):
         continue
     ev = json.load(open(f)); cov = ev["coverage"]
-    tb = [t for t in cov.get("trusted_base", []) if t.startswith("TRUSTED AXIOM") or t.startswith("assumed contract of")]
+    tb = [t for t in cov.get("trusted_base", []) if t.startswith("TRUSTED AXIOM") or t.startswith("assumed contract of") or t.startswith("ASSUMED CONTRACT") or t.startswith("unknown callee")]
     short = sorted(set(t.replace("assumed contract of ", "").replace("TRUSTED AXIOM (contract assumed, never verified): ", "axiom ").split(" (")[0] for t in tb))
     rows.append("| %s | %d | %d (%d) | %.0f s | %s |" % (pid, len(cov["functions_under_contract"]), cov["obligations"], cov["headline_obligations"], ev["wall_s"], ", ".join(short)[:400]))
+# obligations that took 10 s or more on the last run: the ones whose proofs are most at risk from load or solver luck
+slow = []
+for c in man["checks"]:
+    f = "/verif/evidence/%s.json" % c["property_id"]
+    if os.path.exists(f):
+        for o in json.load(open(f))["coverage"].get("slowest", []):
+            if o["seconds"] >= 10:
+                slow.append((o["seconds"], o["obligation"], o["solver"]))
+seen = set()
+rows.append("")
+rows.append("Obligations that took 10 s or more on the last quick run (budget 60 s, retried once with 120 s):")
+rows.append("")
+for sec, ob, sv in sorted(slow, reverse=True):
+    if ob in seen:
+        continue
+    seen.add(ob)
+    rows.append("* `%s` - %.0f s (%s)" % (ob, sec, sv))
+if not seen:
+    rows.append("* none")
 block2 = "<!-- covtable:begin -->\n" + "\n".join(rows) + "\n<!-- covtable:end -->"
 if "<!-- covtable:begin -->" in s:
     s = re.sub(r"<!-- covtable:begin -->.*?<!-- covtable:end -->", lambda m: block2, s, flags=re.S)
